@@ -1,7 +1,9 @@
 //! Watchdog + crash journal.
 //!
-//! * Watchdog: turns "one case has been running for more than LIMIT_S seconds" into a verdict
-//!   (non-termination) that names the offending case.
+//! * Watchdog: turns "one case has consumed more than LIMIT_S seconds of CPU time on its thread"
+//!   into a verdict (non-termination) that names the offending case. CPU time of the worker
+//!   thread, not wall time, so a loaded or suspended machine cannot cause an alarm; a case that is
+//!   blocked without burning CPU is reported after WALL_LIMIT_S.
 //! * Journal: every case in flight is also written into a slot of a memory-mapped file, so that
 //!   when the process is killed (stack overflow, abort) the supervising parent process can read
 //!   which cases were running and probe them one by one in fresh subprocesses.
@@ -13,9 +15,29 @@ use std::time::{Duration, Instant};
 pub const SLOTS: usize = 256;
 pub const SLOT_BYTES: usize = 4096;
 pub const LIMIT_S: u64 = 20;
+pub const WALL_LIMIT_S: u64 = 600;
 
 struct Slot {
-    cur: Mutex<Option<(Instant, String)>>,
+    /// (wall start, case, thread CPU time at start in ns, the worker's pthread id)
+    cur: Mutex<Option<(Instant, String, u64, libc::pthread_t)>>,
+}
+
+/// slowest completed case so far, in microseconds of wall time (reported in the evidence)
+pub static SLOWEST_US: std::sync::atomic::AtomicU64 = std::sync::atomic::AtomicU64::new(0);
+
+fn clock_ns(clk: libc::clockid_t) -> u64 {
+    let mut ts = libc::timespec { tv_sec: 0, tv_nsec: 0 };
+    unsafe { libc::clock_gettime(clk, &mut ts) };
+    ts.tv_sec as u64 * 1_000_000_000 + ts.tv_nsec as u64
+}
+
+/// CPU time consumed so far by the thread `t` (None if its clock cannot be read)
+fn thread_cpu_ns(t: libc::pthread_t) -> Option<u64> {
+    let mut clk: libc::clockid_t = 0;
+    if unsafe { libc::pthread_getcpuclockid(t, &mut clk) } != 0 {
+        return None;
+    }
+    Some(clock_ns(clk))
 }
 
 static TABLE: OnceLock<Vec<Slot>> = OnceLock::new();
@@ -105,12 +127,20 @@ pub fn start(on_hang: impl Fn(String) + Send + 'static) {
         std::thread::sleep(Duration::from_millis(500));
         for s in table().iter() {
             let g = s.cur.lock().unwrap();
-            if let Some((t, what)) = g.as_ref() {
-                if t.elapsed() > Duration::from_secs(LIMIT_S) {
-                    let w = what.clone();
-                    drop(g);
-                    on_hang(w);
-                    return;
+            if let Some((t, what, cpu0, tid)) = g.as_ref() {
+                let wall = t.elapsed();
+                if wall > Duration::from_secs(LIMIT_S) {
+                    let burnt = thread_cpu_ns(*tid).map(|now| now.saturating_sub(*cpu0));
+                    let hang = match burnt {
+                        Some(ns) => ns > LIMIT_S * 1_000_000_000 || wall > Duration::from_secs(WALL_LIMIT_S),
+                        None => wall > Duration::from_secs(3 * LIMIT_S),
+                    };
+                    if hang {
+                        let w = what.clone();
+                        drop(g);
+                        on_hang(w);
+                        return;
+                    }
                 }
             }
         }
@@ -126,10 +156,12 @@ pub fn case<T>(what: &str, f: impl FnOnce() -> T) -> T {
 /// (the format name for string inputs, "fold:<format>" for JSON lexical values).
 pub fn tagged<T>(tag: &str, what: &str, f: impl FnOnce() -> T) -> T {
     let i = MY.with(|m| *m);
-    *table()[i].cur.lock().unwrap() = Some((Instant::now(), what.to_string()));
+    let t0 = Instant::now();
+    *table()[i].cur.lock().unwrap() = Some((t0, what.to_string(), clock_ns(libc::CLOCK_THREAD_CPUTIME_ID), unsafe { libc::pthread_self() }));
     journal_set(i, tag, what);
     let r = f();
     journal_clear(i);
     *table()[i].cur.lock().unwrap() = None;
+    SLOWEST_US.fetch_max(t0.elapsed().as_micros() as u64, Ordering::Relaxed);
     r
 }
